@@ -92,10 +92,13 @@ class C02(Check):
         "R5": "missing-name check first: a raise of the missing-dependency error with payload "
               "sorted(required - (available U all provided)) per element dominates the loop",
         "R6": "no handler on the call chains from public queries to the sorter swallows the two errors",
+        "R8": "the set of initially available names handed to the sorter is exactly the key set of the mapping the components are then "
+              "evaluated on (plain parameters, plain initial values, data, time): a name class missing from it is reported as a missing "
+              "dependency, an extra one lets a component run before its argument exists",
         "R7": "all component classes (initial assignments of variables and parameters, derived, reactions, surrogates "
               "with provided=outputs) are handed to the sorter and evaluation follows the sorter's order unfiltered",
     }
-    floors = {"R1": 1, "R2": 1, "R3": 1, "R4": 1, "R5": 3, "R6": 5, "R7": 5}
+    floors = {"R1": 1, "R2": 1, "R3": 1, "R4": 1, "R5": 3, "R6": 5, "R7": 5, "R8": 1}
     decided = [
         "an element is emitted only once everything it requires is available; nothing is emitted otherwise",
         "resolution terminates; the only non-exhaustion exits raise the circular-dependency error",
@@ -555,6 +558,44 @@ class C02(Check):
             self.violated("R7", MOD, q, "dependency-shape", elt,
                           "a Dependency is not built as required=set(args), provided={name} (surrogates: set(outputs))",
                           witness="a component depending on a surrogate output is reported as missing a name")
+        # R8: available == keys of the evaluation mapping
+        def parts_of(name):
+            for st in cc.body:
+                if isinstance(st, (ast.Assign, ast.AnnAssign)) and norm(getattr(st, "target", None) or st.targets[0]) == name and st.value is not None:
+                    out = []
+
+                    def flat(e):
+                        if isinstance(e, ast.BinOp) and isinstance(e.op, ast.BitOr):
+                            flat(e.left)
+                            flat(e.right)
+                        else:
+                            t = norm(e)
+                            t = t[4:-1] if t.startswith("set(") and t.endswith(")") else t
+                            if t.startswith("{") and "time" in t:
+                                t = "time"
+                            out.append(t)
+
+                    flat(st.value)
+                    return st, sorted(out)
+            return None, []
+
+        av_name = norm(kw.get(params[0])) if params else "available"
+        st_av, av_parts = parts_of(av_name)
+        ev_map = None
+        for st in cc.body:
+            if isinstance(st, ast.For) and norm(st.iter) == order_var:
+                for c in ast.walk(st):
+                    if isinstance(c, ast.Call) and isinstance(c.func, ast.Attribute) and c.func.attr == "calculate_inpl" and len(c.args) == 2:
+                        ev_map = norm(c.args[1])
+        st_ev, ev_parts = parts_of(ev_map) if ev_map else (None, [])
+        if st_av is not None and st_ev is not None and av_parts == ev_parts:
+            self.holds("R8", MOD, q, "available-equals-evaluation-keys", st_av, f"{av_name} and {ev_map} are both built from {av_parts}")
+        elif st_av is None or st_ev is None:
+            self.undecided_ob("R8", MOD, q, "available-equals-evaluation-keys", cc, "construction of the available-name set / evaluation mapping not recognised")
+        else:
+            self.violated("R8", MOD, q, "available-equals-evaluation-keys", st_av,
+                          f"initially available names are {av_parts} but components are evaluated on {ev_parts}",
+                          witness="a rate law that takes `time` (or a data set): MissingDependenciesError lists a name that exists")
         # evaluation loop follows the order
         ev = None
         for s in cc.body:
@@ -603,6 +644,7 @@ class C02(Check):
             Variant("no-copy", MOD, "_check_if_is_sortable", "all_available = available.copy()", "all_available = available", expect="R5|"),
             Variant("swallow-in-get_args", MOD, "Model.get_initial_conditions",
                     "        cache = self._create_cache()", "        try:\n            cache = self._create_cache()\n        except Exception:\n            return {}", expect="R6|"),
+            Variant("time-not-available", MOD, "Model._create_cache", "set(base_parameter_values) | set(base_variable_values) | set(self._data) | {'time'}", "set(base_parameter_values) | set(base_variable_values) | set(self._data)", expect="R8|", quick=True),
             Variant("skip-surrogates", MOD, "Model._create_cache",
                     "to_sort = initial_assignments | self._derived | self._reactions | self._surrogates",
                     "to_sort = initial_assignments | self._derived | self._reactions", expect="R7|"),
